@@ -81,7 +81,15 @@ func mixedCase(salt uint64, tier string, seed uint64, i int) *c06Case {
 // miscValue builds the small header-like kinds that no container generator reaches on their own.
 func miscValue(m *rec.Rec) util.Message {
 	a, b, cc := m.U16("a"), m.U16("b"), m.U32("c")
-	switch m.U("which") % 6 {
+	switch m.U("which") % 7 {
+	case 6: // tunnel-metadata field whose value and mask are given in different widths (nothing may be dropped silently)
+		d := m.Bytes("data")
+		v := append([]byte{byte(a), byte(b)}, d...)
+		mk := append([]byte{byte(cc), byte(cc >> 8), byte(cc >> 16), byte(cc >> 24), 0xff, 0x0f}, d...)
+		if a&1 == 1 {
+			v, mk = mk, v
+		}
+		return of.NewTunMetadataField(int(b%8), v, mk)
 	case 0:
 		h := common.NewHelloElemHeader()
 		h.Type, h.Length = a, b
@@ -420,6 +428,7 @@ func c06Check(c *fw.Ctx, v util.Message, depth int) {
 	if l0 != len(enc) || l1 != len(enc) {
 		c.Violation(tn, "size", "Len-vs-bytes", fmt.Sprintf("Len() = %d before / %d after encoding, %d bytes produced: %s", l0, l1, len(enc), hexHead(enc)))
 	}
+	c06Payload(c, tn, v, enc)
 	segs, pad8, container := children(v)
 	if !container {
 		return
@@ -687,5 +696,34 @@ func sloppify(v util.Message, how uint64) {
 		x.AuxDataLen = uint8(how % 3)
 	case *protocol.TCP:
 		x.HdrLen = uint8(how % 16)
+	}
+}
+
+// c06Payload: a value's own byte payload (an exported []byte field called Data or Note) must appear complete in its
+// encoding - "no byte of anything added to a message is silently dropped or truncated". Applied to every value at
+// every depth.
+func c06Payload(c *fw.Ctx, tn string, v util.Message, enc []byte) {
+	rv := reflect.ValueOf(v)
+	for rv.Kind() == reflect.Ptr {
+		if rv.IsNil() {
+			return
+		}
+		rv = rv.Elem()
+	}
+	if rv.Kind() != reflect.Struct {
+		return
+	}
+	for _, name := range []string{"Data", "Note"} {
+		f := rv.FieldByName(name)
+		if !f.IsValid() || f.Kind() != reflect.Slice || f.Type().Elem().Kind() != reflect.Uint8 || f.Len() == 0 {
+			continue
+		}
+		if sf, _ := rv.Type().FieldByName(name); !sf.IsExported() {
+			continue
+		}
+		c.Count("payload_checks", 1)
+		if !bytes.Contains(enc, f.Bytes()) {
+			c.Violation(tn, "embed", "own-payload("+name+")", fmt.Sprintf("the %d payload bytes in field %s do not appear complete in the %d-byte encoding (dropped or truncated): payload %s, encoding %s", f.Len(), name, len(enc), hexHead(f.Bytes()), hexHead(enc)))
+		}
 	}
 }
